@@ -156,7 +156,11 @@ def rule_wrap(ctx):
     for name, ok, detail in run_witness(ctx, 'once'):
         ctx.ob('C14.4', 'witness: ' + name, ok, 'compile-time assertion against the repository and system headers', loc='witnesses/abi_witness.c',
                detail=detail)
-    ctx.floor('C14.4', 4)
+    # the link-time flavour redirects pthread_once only if the linker response file lists it (shared with C16.4)
+    from . import c16
+    with ctx.shared({'C16.4': 'C14.4'}, keep=lambda k: 'pthread_once' in k):
+        c16.rule4_wraplist(ctx)
+    ctx.floor('C14.4', 5)
 
 
 def run(ctx):
